@@ -100,6 +100,11 @@ CHECKS = {
    note="Partial: constrain / mutate preserving validity is modelled (Search.v) but only observed through the predicate, not proved; memory safety and absence of undefined behaviour are observed under sanitizers (no C semantics installed); the score functions are abstracted to an arbitrary strict order; the rejection loop inside mutate relies on erand48 not repeating one value forever. Trusted: Coq kernel; extraction/driver; clang sanitizers. Axioms: none.",
    technique="Coq termination proof for the abstract loop + sanitised runs with an extracted validity predicate",
    design="5 C19"),
+ "C20": dict(
+   text="Proof (partial): over an abstract file system, processes whose write sets are pairwise disjoint and disjoint from the others' read sets produce under every interleaving of their atomic file operations (writes may depend on everything read so far) the same final files and per-process observations as any other order, in particular the sequential one (induction over permutations of the schedule, adjacent independent steps commute); over footprints REGENERATED from the source on every run: a compile modifies only its output and save files, a design run only its output, the four scratch files derived from its temp name and unique mkstemp files, a finish only its sequence files, and the CLI defaults derive these names from BASENAME; different temp names never share a scratch file (5 theorems, closed). Correspondence: strace'd runs of the three tools must modify only paths of the generated footprint; batches of 2-8 runs with distinct names (incl. dotted temp names) started simultaneously vs one after another, all files compared byte for byte.",
+   note="Partial by nature: real OS scheduling, file-system semantics and interpreter side effects are outside any Gallina model; they are exercised. Trusted: Coq kernel; harness/translate_footprint.py (fail-closed; reads of source files abstracted to PSources); strace; NUPACK stub and gcc build of spuriousSSM. Axioms: none.",
+   technique="Coq interleaving theorem + theorems over a source-regenerated footprint + strace and concurrent-vs-sequential correspondence",
+   design="5 C20"),
 }
 
 checks = []
